@@ -8,6 +8,14 @@ import sys, os, json
 sys.path.insert(0, os.path.dirname(os.path.abspath(__file__)))
 import implib, exportlib
 DATA = json.load(sys.stdin)
+COV = None
+if DATA.get("coverage"):
+    try:
+        import coverage
+        COV = coverage.Coverage(data_file=None, branch=True, include=["*/measured/conversions.py"])
+        COV.start()
+    except Exception:  # noqa
+        COV = None
 measured = implib.load(systems=DATA.get("systems", True))
 from measured import Unit, Prefix, One, Quantity, Dimension, conversions
 from decimal import Decimal
@@ -88,6 +96,15 @@ def run(data):
             res.append(o)
         except Exception as ex:  # noqa
             res.append({"setup_err": implib.errclass(ex), "msg": str(ex)[:160]})
-    return {"export": exportlib.export_all(measured, C), "results": res}
+    out = {"export": exportlib.export_all(measured, C), "results": res}
+    if COV is not None:
+        COV.stop()
+        try:
+            from measured import conversions as _cv
+            _, stmts, _, missing, _ = COV.analysis2(_cv.__file__)
+            out["coverage"] = {"statements": len(stmts), "missing_lines": missing}
+        except Exception as ex:  # noqa
+            out["coverage"] = {"error": str(ex)[:100]}
+    return out
 
 sys.stdout.write(json.dumps(run(DATA)))
